@@ -92,7 +92,51 @@ func opMiDec(args []Sx) Sx {
 	return L(Sym("dec"), B(out), Sym("more"))
 }
 
+func drain(d io.Reader, out []byte) Sx {
+	buf := make([]byte, 1000000)
+	for i := 0; i < 1000000; i++ {
+		n, err := d.Read(buf)
+		out = append(out, buf[:n]...)
+		if err == io.EOF {
+			return L(Sym("dec"), B(out), Sym("eof"))
+		}
+		if err != nil {
+			return L(Sym("dec"), B(out), Sym("err"))
+		}
+	}
+	return L(Sym("dec"), B(out), Sym("more"))
+}
+
+// two decoders in one process: A delivers k bytes, B is created and drained, A is drained
+func opMiInterleave(a []Sx) Sx {
+	enc := draftOf(a[0])
+	da, err := enc.NewDecoder(bytes.NewReader(a[1].B), string(a[2].B), 16384)
+	if err != nil {
+		return L(L(Sym("newerr")), L(Sym("skipped")))
+	}
+	first := make([]byte, a[5].Int())
+	n, rerr := da.Read(first)
+	outA := append([]byte{}, first[:n]...)
+	var resB Sx
+	db, err := enc.NewDecoder(bytes.NewReader(a[3].B), string(a[4].B), 16384)
+	if err != nil {
+		resB = L(Sym("newerr"))
+	} else {
+		resB = drain(db, nil)
+	}
+	var resA Sx
+	if rerr == io.EOF {
+		resA = L(Sym("dec"), B(outA), Sym("eof"))
+	} else if rerr != nil {
+		resA = L(Sym("dec"), B(outA), Sym("err"))
+	} else {
+		resA = drain(da, outA)
+	}
+	return L(resA, resB)
+}
+
 func init() {
+	regOp("mi_interleave", opMiInterleave)
 	regOp("sha256", opSha256)
 	regOp("b64", opB64)
 	regOp("mi_enc", opMiEnc)
